@@ -159,7 +159,13 @@ pub fn random_call(rng: &mut Rng, pool: &[Tree]) -> Call {
             let pg = PathGen::new(&t);
             let cfg = PathCfg { max_steps: 3, filters: true, big_indices: false };
             let p = pg.guided_path(rng, &cfg, &t);
-            let text = refpath::render(&p, &refpath::PLAIN, rng);
+            let text = match rng.below(16) {
+                // arithmetic parses but cannot be evaluated: an error, and nothing appended
+                0 | 1 => (*rng.pick(super::c08::ARITH)).to_string(),
+                2 => format!("{} && $ + 1", refpath::render(&refpath::JPath::Predicate(pg.guided_expr(rng, &cfg, &t, &t, true, 1, 1)), &refpath::PLAIN, rng)),
+                3 => "$".to_string(),
+                _ => refpath::render(&p, &refpath::PLAIN, rng),
+            };
             let mode = if which == 25 { 6 } else { which - 18 };
             // the selector itself takes JSONB only; the convenience functions also take text
             let a = if mode >= 3 { refcodec::encode(&t) } else { a };
